@@ -999,6 +999,12 @@ func (a *FuncAn) edgeState(p, b *ssa.BasicBlock, idx int) *State {
 	}
 	s := ps.Clone()
 	if iff, ok := p.Instrs[len(p.Instrs)-1].(*ssa.If); ok && p.Succs[0] != p.Succs[1] {
+		// a branch on a boolean constant (`if debug { … }` with debug a false constant) has one live arm
+		if c, ok := iff.Cond.(*ssa.Const); ok && c.Value != nil && c.Value.Kind() == constant.Bool {
+			if constant.BoolVal(c.Value) != (p.Succs[0] == b) {
+				return nil
+			}
+		}
 		a.condFacts(s, iff.Cond, p.Succs[0] == b)
 		if s.Infeasible() {
 			return nil
@@ -1436,6 +1442,9 @@ func (a *FuncAn) isNonNil(s *State, v ssa.Value) bool {
 		}
 		return a.registryValueNonNil(s, x)
 	case *ssa.UnOp:
+		if g, ok := x.X.(*ssa.Global); ok && x.Op == token.MUL && a.E.initOnlyWholeNonNil(g) {
+			return true
+		}
 		return a.registryValueNonNil(s, x) || a.onceLoadNonNil(x) || a.initTableNonNil(x)
 	case *ssa.Phi:
 		// all edges statically non-nil
